@@ -378,7 +378,11 @@ Definition m_lookup (s : state) (ext : N) : N := index_ext ext s.(i2e) 0.
 Definition m_reader (s : state) : reader :=
   mkReader (length s.(i2e)) (m_nodes s) (m_out s) (m_in s) (m_nprop s) (m_nprops s)
            (m_eprop s) (m_eprops s) (m_labels s) (m_ext s) (m_lookup s).
-Definition m_dump (s : state) : dump := dump_of s.(interner) s.(vecs) (m_reader s).
+(* GraphEngine::search_vector (after b0237dc): the ids in the vector index, minus the nodes that are
+   tombstoned in a published run of the current snapshot *)
+Definition m_vec_ids (s : state) : list N :=
+  filter (fun n => negb (existsb (fun r => memN n r.(me_tn)) s.(runs))) s.(vecs).
+Definition m_dump (s : state) : dump := dump_of s.(interner) (m_vec_ids s) (m_reader s).
 
 (* the dump after every step of a history *)
 Fixpoint run_dumps (s : state) (h : list hop) : list dump :=
